@@ -304,7 +304,7 @@ fn run_steps(client: &mut TcpStream, script: &str, pending: &mut Vec<u8>, out: &
                 } else if step == "c" {
                     let _ = client.shutdown(std::net::Shutdown::Write);
                 } else if step == "e" {
-                    match read_response(client, pending, Duration::from_millis(1200)) {
+                    match read_response(client, pending, Duration::from_millis(2200)) {
                         Ok(None) => out.push("EOF".into()),
                         Ok(Some((st, close, body))) => out.push(format!("R{}:{}:{}", st, close as u8, hex(&body))),
                         Err("HANG") => out.push("OPEN".into()),
